@@ -3,6 +3,7 @@ C15 — Observe accounting: sequence strictly increases; eviction exactly past
 limit.  Model: Model/Observe.lean.
 -/
 import CoapLite.Lemmas.Observe
+import CoapLite.Lemmas.ObserveRefine
 
 namespace CoapLite.C15
 open CoapLite Observe
@@ -84,6 +85,67 @@ theorem notification_spec (mid : Nat) (tok : Bytes) (seq : Nat) (payload : Bytes
       p.payload = payload ∧ p.options = [(6, [Spec.minimalBE seq])] ∧
       p.getObserveValue = some (.ok seq) :=
   Observe.notification_spec mid tok seq payload con ht hs
+
+/-! ### every history, one observer at a time (refinement to a per-observer rule book)
+
+`specStep limit p ep` (Lemmas/ObserveRefine.lean) is the whole accounting rule for the observer of
+resource `p` at endpoint `ep`, written without reference to lists, other observers or other
+resources: registration from `ep` on `p` ⇒ a fresh entry with count 0; a round on `p` ⇒ the count
+goes up by one iff the round is confirmable, the entry records the round's message id, and the
+entry disappears iff the new count exceeds the limit; an acknowledgement ⇒ count 0 iff it comes
+from `ep` with the recorded id, nothing otherwise; everything else ⇒ nothing. -/
+
+/-- for EVERY history, what the registry holds for (p, ep) is what the rule book computes for
+that pair alone from the same history -/
+theorem per_observer_refinement (p : String) (ep : Nat) (ops : List Op) :
+    ((run ops).limit, viewOf (run ops) p ep) = specRun p ep ops (Consts.defaultUnackLimit, none) :=
+  view_run p ep ops
+
+/-- … one step at a time, from every reachable state -/
+theorem per_observer_step (s : Subject) (h : Inv s) (op : Op) (p : String) (ep : Nat) :
+    viewOf (step s op) p ep = specStep s.limit p ep (viewOf s p ep) op ∧
+    (step s op).limit = specLimit s.limit op :=
+  view_step s h op p ep
+
+/-- the rule book, read off: an observer is dropped by a round exactly when its count of
+confirmable notifications since its last acknowledgement or registration then exceeds the limit;
+a non-confirmable round does not count -/
+theorem dropped_iff (limit : Nat) (p : String) (ep m : Nat) (o : Observer) :
+    (specStep limit p ep (some o) (.chg p m true) = none ↔ limit < o.unacked + 1) ∧
+    (specStep limit p ep (some o) (.chg p m false) = none ↔ limit < o.unacked) ∧
+    (o.unacked + 1 ≤ limit → specStep limit p ep (some o) (.chg p m true) =
+      some { o with unacked := o.unacked + 1, mid := some m }) ∧
+    (o.unacked ≤ limit → specStep limit p ep (some o) (.chg p m false) = some { o with mid := some m }) := by
+  simp only [specStep, ↓reduceIte, Option.bind_some, bump]
+  refine ⟨?_, ?_, ?_, ?_⟩
+  · by_cases h : o.unacked + 1 ≤ limit <;> simp [h] <;> omega
+  · by_cases h : o.unacked ≤ limit <;> simp [h] <;> omega
+  · intro h; simp [h]
+  · intro h; simp [h]
+
+/-- … an acknowledgement resets the count exactly when it comes from the observer's endpoint with
+the most recent notification's message id, and changes nothing otherwise; rounds on other
+resources, and registrations / deregistrations of other endpoints or on other resources, change
+nothing -/
+theorem untouched_by_others (limit : Nat) (p p' : String) (ep ep' m : Nat) (t : Bytes) (c : Bool)
+    (o : Observer) (ho : o.endpoint = ep) :
+    (specStep limit p ep (some o) (.ack ep' m) =
+      some (if ep' = ep ∧ o.mid = some m then { o with unacked := 0, mid := none } else o)) ∧
+    (p' ≠ p → specStep limit p ep (some o) (.chg p' m c) = some o) ∧
+    ((ep' ≠ ep ∨ p' ≠ p) → specStep limit p ep (some o) (.reg ep' p' t) = some o ∧
+      specStep limit p ep (some o) (.dereg ep' p' t) = some o) := by
+  refine ⟨?_, ?_, ?_⟩
+  · simp only [specStep, Option.map_some, ackOne, ho]
+    by_cases h1 : ep' = ep
+    · subst h1
+      by_cases h2 : o.mid = some m <;> simp [h2]
+    · have h1' : ¬ ep = ep' := fun e => h1 e.symm
+      simp [h1, h1']
+  · intro h; simp [specStep, h]
+  · intro h
+    have : ¬ (ep' = ep ∧ p' = p) := by
+      rintro ⟨h1, h2⟩; rcases h with h | h <;> contradiction
+    simp [specStep, this]
 
 /-! non-vacuity: eviction exactly past the limit (limit 1: second unacknowledged
 CON round drops the observer; a NON round in between does not count) -/
